@@ -47,59 +47,40 @@ theorem render_parse (v : ValidExpr) : parseValid v.render = some v := by
 /-! ## 3. Library::isIntArgValid -/
 
 /-- Exact behaviour of the code on every expression whose bounds std::stoull accepts (|bound| < 2^64), for
-every integer `x`: `x` is accepted iff it lies in the code denotation (`memCodeB`: the interval, plus both end
-points of a closed range) of the expression whose bounds are reduced modulo 2^64 into int64. -/
+every integer `x`: `x` is accepted iff it lies in the union of the intervals of the expression whose bounds are
+reduced modulo 2^64 into int64 (`wrap64`); no InternalError is thrown. -/
 theorem intValid_exact_wrap (v : ValidExpr) (hb : v.bounded65 = true) (x : Int) :
-    isIntArgValid v.render x = .ok ((v.ranges.map (Range.mapB wrap64)).any (Range.memCodeB x)) :=
+    isIntArgValid v.render x = .ok ((v.ranges.map (Range.mapB wrap64)).any (Range.memB x)) :=
   isIntArgValid_renderRanges_val v.ranges (by simp [ValidExpr.ranges]) wrap64 (by
     intro r hr n hn
     have h1 := List.all_eq_true.mp hb r hr
     exact toBigNumber_renderInt_wrap n (List.all_eq_true.mp h1 n hn)) x
 
-/-- With all bounds in int64: accepted iff in the code denotation of the expression itself. -/
+/-- With all bounds in int64: the verdict is the decision of membership in the union of the intervals. -/
 theorem intValid_exact (v : ValidExpr) (hb : v.bounded = true) (x : Int) :
-    isIntArgValid v.render x = .ok (v.ranges.any (Range.memCodeB x)) :=
+    isIntArgValid v.render x = .ok (v.ranges.any (Range.memB x)) :=
   isIntArgValid_renderRanges v.ranges (by simp [ValidExpr.ranges]) hb x
-
-theorem Range.memCodeB_iff (x : Int) (r : Range) : r.memCodeB x = true ↔ r.memCode x := by
-  cases r <;> simp [Range.memCodeB, Range.memB, Range.memCode, Range.mem, or_assoc]
 
 theorem Range.memB_iff (x : Int) (r : Range) : r.memB x = true ↔ r.mem x := by
   cases r <;> simp [Range.memB, Range.mem]
 
-theorem Range.memCode_of_ordered (x : Int) (r : Range) (h : r.ordered = true) : r.memCode x ↔ r.mem x := by
-  cases r with
-  | closed lo hi =>
-    simp [Range.ordered] at h
-    simp only [Range.memCode, Range.mem]
-    omega
-  | _ => simp [Range.memCode]
-
-theorem intValid_exact_iff (v : ValidExpr) (hb : v.bounded = true) (x : Int) :
-    isIntArgValid v.render x = .ok true ↔ v.memCode x := by
-  rw [intValid_exact v hb x]
-  simp only [Res.ok.injEq, List.any_eq_true, ValidExpr.memCode]
-  constructor
-  · rintro ⟨r, hr, h⟩; exact ⟨r, hr, (Range.memCodeB_iff x r).mp h⟩
-  · rintro ⟨r, hr, h⟩; exact ⟨r, hr, (Range.memCodeB_iff x r).mpr h⟩
-
-/-- The property for `<valid>`: bounds in int64 and no closed range written with swapped bounds ⇒ the code accepts
-exactly the union of the intervals, and never throws. -/
-theorem intValid_iff_partial (v : ValidExpr) (hb : v.bounded = true) (ho : v.ordered = true) (x : Int) :
+/-- The property for `<valid>`: for every expression of the grammar (any length; single values, closed ranges —
+also with swapped bounds, i.e. empty —, open ranges, negative bounds) whose bounds fit int64, and every integer
+`x` (in particular every 64-bit value): the code accepts `x` exactly when `x` lies in the union of the intervals,
+and never throws. -/
+theorem intValid_iff_partial (v : ValidExpr) (hb : v.bounded = true) (x : Int) :
     (isIntArgValid v.render x = .ok true ↔ v.mem x) ∧ isIntArgValid v.render x ≠ .err := by
   refine ⟨?_, by rw [intValid_exact v hb x]; simp⟩
-  rw [intValid_exact_iff v hb x]
-  unfold ValidExpr.memCode ValidExpr.mem
+  rw [intValid_exact v hb x]
+  simp only [Res.ok.injEq, List.any_eq_true, ValidExpr.mem]
   constructor
-  · rintro ⟨r, hr, h⟩
-    exact ⟨r, hr, (Range.memCode_of_ordered x r (List.all_eq_true.mp ho r hr)).mp h⟩
-  · rintro ⟨r, hr, h⟩
-    exact ⟨r, hr, (Range.memCode_of_ordered x r (List.all_eq_true.mp ho r hr)).mpr h⟩
+  · rintro ⟨r, hr, h⟩; exact ⟨r, hr, (Range.memB_iff x r).mp h⟩
+  · rintro ⟨r, hr, h⟩; exact ⟨r, hr, (Range.memB_iff x r).mpr h⟩
 
 /-- same, as an equation between the verdict and the decision of membership -/
-theorem intValid_eq_partial (v : ValidExpr) (hb : v.bounded = true) (ho : v.ordered = true) (x : Int) :
+theorem intValid_eq_partial (v : ValidExpr) (hb : v.bounded = true) (x : Int) :
     isIntArgValid v.render x = .ok (decide (v.mem x)) := by
-  have h := (intValid_iff_partial v hb ho x).1
+  have h := (intValid_iff_partial v hb x).1
   rw [intValid_exact v hb x] at h ⊢
   congr 1
   by_cases hm : v.mem x
@@ -107,33 +88,27 @@ theorem intValid_eq_partial (v : ValidExpr) (hb : v.bounded = true) (ho : v.orde
     have := h.mpr hm
     injection this
   · simp only [hm, decide_false]
-    cases hb' : v.ranges.any (Range.memCodeB x)
+    cases hb' : v.ranges.any (Range.memB x)
     · rfl
     · exact absurd (h.mp (by rw [hb'])) hm
 
--- the hypotheses are satisfiable by non-trivial expressions
-example : (⟨.closed (-7) 0, [.single 8, .from 100, .upto (-9223372036854775808)]⟩ : ValidExpr).bounded = true := by decide
-example : (⟨.closed (-7) 0, [.single 8, .from 100, .upto (-9223372036854775808)]⟩ : ValidExpr).ordered = true := by decide
+/-- what the loader and the check do together with a rendered expression: never rejected, verdict as above -/
+theorem loadAndCheck_render (v : ValidExpr) (hb : v.bounded = true) (x : Int) :
+    loadAndCheckInt v.render x = .verdict (.ok (decide (v.mem x))) := by
+  unfold loadAndCheckInt
+  rw [render_compliant, intValid_eq_partial v hb x]
+  rfl
+
+-- the hypotheses are satisfiable by non-trivial expressions (swapped bounds included)
+example : (⟨.closed (-7) 0, [.single 8, .from 100, .upto (-9223372036854775808), .closed 5 1]⟩ : ValidExpr).bounded = true := by decide
 example : (⟨.closed 0 18446744073709551615, []⟩ : ValidExpr).bounded65 = true := by decide
 
-/-- The full-strength statement (all expressions of the grammar with int64 bounds) is false of the code: a closed
-range written with swapped bounds, `5:1`, denotes the empty set but the code accepts its end points. -/
-theorem intValid_iff_counterexample_swapped :
-    ¬ ∀ (v : ValidExpr) (x : Int), v.bounded = true → (isIntArgValid v.render x = .ok true ↔ v.mem x) := by
-  intro h
-  have h1 := h ⟨.closed 5 1, []⟩ 5 (by decide)
-  rw [intValid_exact_iff _ (by decide)] at h1
-  have : ValidExpr.memCode 5 ⟨.closed 5 1, []⟩ := ⟨.closed 5 1, by simp [ValidExpr.ranges], by simp [Range.memCode]⟩
-  have h2 := h1.mp this
-  revert h2
-  decide
-
-/-- The full-strength statement without the int64 restriction on the bounds is false of the code as well:
-`0:18446744073709551615` contains 5, the code reads the upper bound as -1 and rejects 5. -/
+/-- The full-strength statement (arbitrary integer bounds) is false of the code: `0:18446744073709551615`
+contains 5, the code reads the upper bound as -1 (std::stoull, then the conversion to int64) and rejects 5. -/
 theorem intValid_iff_counterexample_wide :
-    ¬ ∀ (v : ValidExpr) (x : Int), v.ordered = true → inInt64 x = true → (isIntArgValid v.render x = .ok true ↔ v.mem x) := by
+    ¬ ∀ (v : ValidExpr) (x : Int), inInt64 x = true → (isIntArgValid v.render x = .ok true ↔ v.mem x) := by
   intro h
-  have h1 := h ⟨.closed 0 18446744073709551615, []⟩ 5 (by decide) (by decide)
+  have h1 := h ⟨.closed 0 18446744073709551615, []⟩ 5 (by decide)
   rw [intValid_exact_wrap _ (by decide)] at h1
   have hm : ValidExpr.mem 5 ⟨.closed 0 18446744073709551615, []⟩ :=
     ⟨.closed 0 18446744073709551615, by simp [ValidExpr.ranges], by simp [Range.mem]⟩
@@ -141,11 +116,24 @@ theorem intValid_iff_counterexample_wide :
   revert h2
   decide
 
+/-- History (repaired by commit 279e2e4): with the first clause as it was — `tok->isNumber() && argvalue ==
+toBigNumber(tok)` on every number token — the swapped range `5:1`, which denotes the empty set, accepted its end
+point 5; the code as it is now rejects it. -/
+theorem old_single_value_clause_counterexample :
+    scanIntOld 5 none (rangesToks [.closed 5 1]) = .ok true
+    ∧ ¬ ValidExpr.mem 5 ⟨.closed 5 1, []⟩
+    ∧ isIntArgValid (ValidExpr.render ⟨.closed 5 1, []⟩) 5 = .ok false := by
+  refine ⟨?_, by decide, ?_⟩
+  · have h5 : toBigNumber (renderInt 5) = some 5 := toBigNumber_renderInt 5 (by decide)
+    simp [rangesToks, Range.toks, scanIntOld, intStepOld, isNumber_renderInt, h5, clause]
+  · rw [intValid_exact _ (by decide)]
+    decide
+
 /-- Any accepted text that tokenises into the documented grammar behaves like the rendered expression: the
 statement is about the text, not only about texts produced by `render`. -/
 theorem intValid_of_parse (s : Str) (v : ValidExpr) (hs : s.isEmpty = false) (hd : s.contains '.' = false)
     (hp : parseValid s = some v) (hb : v.bounded = true) (x : Int) :
-    isIntArgValid s x = .ok (v.ranges.any (Range.memCodeB x)) := by
+    isIntArgValid s x = .ok (v.ranges.any (Range.memB x)) := by
   unfold parseValid at hp
   split at hp
   · rename_i r rs hr
